@@ -42,12 +42,12 @@ fn applicable(f: &Fam, g: &GShape) -> bool {
 pub fn emit_wrappers(all: &[GShape], out_dir: &str, tier: &str) {
     let fams = [
         Fam { prop: "c01", body: "c01", batch: 8, kind: "W", timeout: 1500, mem: 4, quick_keep: 1000 },
-        Fam { prop: "c02", body: "c02", batch: 4, kind: "W", timeout: 1800, mem: 4, quick_keep: 480 },
-        Fam { prop: "c03", body: "c03", batch: 4, kind: "W", timeout: 1800, mem: 4, quick_keep: 700 },
+        Fam { prop: "c02", body: "c02", batch: 4, kind: "W", timeout: 1800, mem: 4, quick_keep: 380 },
+        Fam { prop: "c03", body: "c03", batch: 4, kind: "W", timeout: 1800, mem: 4, quick_keep: 450 },
         Fam { prop: "c04", body: "c04", batch: 40, kind: "V", timeout: 900, mem: 4, quick_keep: 1000 },
         Fam { prop: "c06", body: "c06", batch: 4, kind: "V", timeout: 1800, mem: 4, quick_keep: 1000 },
         Fam { prop: "c06", body: "c06_d", batch: 10, kind: "W", timeout: 1500, mem: 4, quick_keep: 1000 },
-        Fam { prop: "c07", body: "c07", batch: 4, kind: "V", timeout: 1800, mem: 4, quick_keep: 520 },
+        Fam { prop: "c07", body: "c07", batch: 4, kind: "V", timeout: 1800, mem: 4, quick_keep: 380 },
         Fam { prop: "c09", body: "c09", batch: 8, kind: "W", timeout: 1500, mem: 4, quick_keep: 1000 },
         Fam { prop: "c17", body: "c17", batch: 8, kind: "W", timeout: 1500, mem: 4, quick_keep: 1000 },
         Fam { prop: "c13", body: "c13", batch: 6, kind: "W", timeout: 1500, mem: 4, quick_keep: 110 },
